@@ -697,9 +697,7 @@ def _loadcase(E, cfg):
                 E.canary("uniaxial-move-on-left-face", [("p", m.npoints), ("i", d)], lambda p, i: E.Iff(E.occurs(bm.dof, d * p + i), E.And(left(p), E.eq(i, axis))))
         return
     if case == "biaxial":
-        pairs = [(a, b) for a in range(mdim) for b in range(mdim) if a != b]
-        if cfg.get("light"):
-            pairs = [pq for pq in pairs if pq in ((0, 1), (1, 0), (1, 2), (2, 0))]
+        pairs = [tuple(cfg["axes"])]
         for axes, clampes, sym, lr in itertools.product(pairs, [(False, False), (True, False), (False, True)] + ([(True, True)] if not cfg.get("light") else []), SYMS, ("default", "given", "mixed")):
             E.scope()
             meshes, fs, cont = _lc_setup(E, mdim, extra)
@@ -761,13 +759,19 @@ def _loadcase(E, cfg):
 
 LC = []
 for case in ("symmetry", "uniaxial", "biaxial", "shear"):
-    LC.append(dict(case=case, mdim=3, light=True))
-    LC.append(dict(case=case, mdim=2, light=True))
-    LC.append(dict(case=case, mdim=3, tier="thorough"))
-    LC.append(dict(case=case, mdim=2, tier="thorough"))
+    for mdim in (3, 2):
+        variants = [{}]
+        if case == "biaxial":  # one configuration per pair of loading axes
+            variants = [dict(axes=(a, b)) for a in range(mdim) for b in range(mdim) if a != b]
+        for v in variants:
+            quick = case != "biaxial" or v["axes"] in ((0, 1), (1, 0), (1, 2), (2, 0))
+            if quick:
+                LC.append(dict(case=case, mdim=mdim, light=True, **v))
+            LC.append(dict(case=case, mdim=mdim, tier="thorough", **v))
     if case != "symmetry":
-        LC.append(dict(case=case, mdim=3, extra=(1, 1), light=True, tier="thorough"))
-        LC.append(dict(case=case, mdim=2, extra=(1,), light=True))
+        v = dict(axes=(1, 0)) if case == "biaxial" else {}
+        LC.append(dict(case=case, mdim=3, extra=(1, 1), light=True, tier="thorough", **v))
+        LC.append(dict(case=case, mdim=2, extra=(1,), light=True, **v))
 
 
 @contract("C08", "loadcase", configs=LC, engine="E3")
